@@ -82,6 +82,7 @@ void run_ring(const char *op);
 void run_slip(const char *op);
 void run_bf(const char *op);
 void run_ep(const char *op);
+void run_be(const char *op);
 void run_lenp(const char *op);
 void run_ps(const char *op);
 void run_reg(const char *op);
@@ -110,6 +111,9 @@ static const struct mod mods[] = {
 #endif
 #ifdef H_EP
     { "ep.", run_ep },
+#endif
+#ifdef H_BE
+    { "be.", run_be },
 #endif
 #ifdef H_LENP
     { "lenp.", run_lenp },
